@@ -337,8 +337,9 @@ def c13(tier):
             fn("quick", hook)
         # histories on one type deriving everything together (MC_Life); Debug is left out: the rendering names the user's names
         import checks_life
-        checks_life.life_stage(Proxy(ck, "life", scheme), "quick", ["C01", "C06", "C07", "C08", "C11", "C18"], transform=transform_for(scheme),
-                               tag="life_c13", limit=90 if tier == "quick" else 400)
+        if tier == "thorough" or scheme in ("locals", "prelude", "raw", "shadow_glob"):
+            checks_life.life_stage(Proxy(ck, "life", scheme), "quick", ["C01", "C06", "C07", "C08", "C11", "C18"], transform=transform_for(scheme),
+                                   tag="life_c13", limit=70 if tier == "quick" else 400)
         # comparison family: a seeded sample of the accepted matrix
         hook = {"ck": Proxy(ck, "cmp", scheme), "transform": transform_for(scheme)}
         checks_cmp.hygiene_sample(tier, hook, rnd)
